@@ -111,6 +111,7 @@ func ResetGlobals() {
 	restful.DefaultRequestContentType("")
 	restful.TrimRightSlashEnabled = true
 	restful.SetCompressorProvider(restful.NewSyncPoolCompessors())
+	restful.DefaultContainer = restful.NewContainer()
 }
 
 // ---- requests and responses -------------------------------------------------------------------
